@@ -3,6 +3,7 @@ package main
 import (
 	"fmt"
 	"go/ast"
+	"go/parser"
 	"go/token"
 	"regexp"
 	"strings"
@@ -111,6 +112,8 @@ func pipen(files []string) string {
 				fail(fset.Position(fd.Pos()), "%s: expected one result", fd.Name.Name)
 			}
 			rx, ry := funcType(fd.Type.Results.List[0].Type, fd.Name.Name)
+			foldLocalClosures(fd)
+			methodValueToClosure(f, fd)
 			ret0 := singleReturn(fd.Body, fd.Name.Name)
 			lit, ok := ret0.(*ast.FuncLit)
 			if !ok {
@@ -227,4 +230,211 @@ func pipen(files []string) string {
 	}
 	sb.WriteString("end Golem.Gen.PipeN\n\n-- digest (replay reports only)\n" + strings.Join(digest, "\n") + "\n")
 	return sb.String()
+}
+
+// `h := func(p P) R { return E }` statements before the final return: every later call `h(x)` is E with p replaced by x
+// (p occurs exactly once in E, so x is still evaluated once, at the same point of Go's evaluation order: E's calls
+// around p's position are the ones that would have run before and after the call of h's body … they are the body).
+func foldLocalClosures(fd *ast.FuncDecl) {
+	for len(fd.Body.List) > 1 {
+		as, ok := fd.Body.List[0].(*ast.AssignStmt)
+		if !ok || as.Tok != token.DEFINE || len(as.Lhs) != 1 || len(as.Rhs) != 1 {
+			return
+		}
+		name, ok := as.Lhs[0].(*ast.Ident)
+		lit, ok2 := as.Rhs[0].(*ast.FuncLit)
+		if !ok || !ok2 || lit.Type.Params == nil || len(lit.Type.Params.List) != 1 || len(lit.Type.Params.List[0].Names) != 1 || len(lit.Body.List) != 1 {
+			return
+		}
+		r, ok := lit.Body.List[0].(*ast.ReturnStmt)
+		if !ok || len(r.Results) != 1 {
+			return
+		}
+		pn := lit.Type.Params.List[0].Names[0].Name
+		occ := 0
+		ast.Inspect(r.Results[0], func(n ast.Node) bool {
+			if i, ok := n.(*ast.Ident); ok && i.Name == pn {
+				occ++
+			}
+			return true
+		})
+		if occ != 1 {
+			return
+		}
+		body := printNode(r.Results[0])
+		rest := &ast.BlockStmt{List: fd.Body.List[1:]}
+		bad := false
+		mapExprs(rest, func(e ast.Expr) ast.Expr {
+			c, ok := e.(*ast.CallExpr)
+			if !ok {
+				return e
+			}
+			h, ok := c.Fun.(*ast.Ident)
+			if !ok || h.Name != name.Name {
+				return e
+			}
+			if len(c.Args) != 1 {
+				bad = true
+				return e
+			}
+			cp, err := parser.ParseExprFrom(fset, name.Name+" (closure)", body, 0)
+			if err != nil {
+				bad = true
+				return e
+			}
+			arg := c.Args[0]
+			holder := &ast.ParenExpr{X: cp}
+			mapExprs(holder, func(x ast.Expr) ast.Expr {
+				if i, ok := x.(*ast.Ident); ok && i.Name == pn {
+					return arg
+				}
+				return x
+			})
+			return holder.X
+		})
+		// any other mention of the closure (as a value) is not supported
+		ast.Inspect(rest, func(n ast.Node) bool {
+			if i, ok := n.(*ast.Ident); ok && i.Name == name.Name {
+				bad = true
+			}
+			return true
+		})
+		if bad {
+			return
+		}
+		fd.Body.List = rest.List
+	}
+}
+
+// `return T[…]{e1, …, en}.m` (a method value on a struct literal; T a struct type of the file, m a method with a value or
+// pointer receiver whose body is one `return E`) is `return func(params of m) R { return E[r.fi := ei] }`: the literal
+// is an immutable copy of its elements, exactly what a closure capturing them is. The elements must be identifiers.
+func methodValueToClosure(f *ast.File, fd *ast.FuncDecl) {
+	if len(fd.Body.List) != 1 {
+		return
+	}
+	r, ok := fd.Body.List[0].(*ast.ReturnStmt)
+	if !ok || len(r.Results) != 1 {
+		return
+	}
+	sel, ok := r.Results[0].(*ast.SelectorExpr)
+	if !ok {
+		return
+	}
+	cl, ok := sel.X.(*ast.CompositeLit)
+	if !ok {
+		return
+	}
+	tname := typeExprName(cl.Type)
+	var st *ast.StructType
+	for _, d := range f.Decls {
+		if gd, ok := d.(*ast.GenDecl); ok && gd.Tok == token.TYPE {
+			for _, sp := range gd.Specs {
+				if ts := sp.(*ast.TypeSpec); ts.Name.Name == tname {
+					st, _ = ts.Type.(*ast.StructType)
+				}
+			}
+		}
+	}
+	if st == nil {
+		return
+	}
+	fields := []string{}
+	for _, fl := range st.Fields.List {
+		if len(fl.Names) == 0 {
+			return
+		}
+		for _, n := range fl.Names {
+			fields = append(fields, n.Name)
+		}
+	}
+	val := map[string]ast.Expr{}
+	for i, el := range cl.Elts {
+		if kv, ok := el.(*ast.KeyValueExpr); ok {
+			k, ok := kv.Key.(*ast.Ident)
+			if !ok {
+				return
+			}
+			val[k.Name] = kv.Value
+		} else if i < len(fields) {
+			val[fields[i]] = el
+		}
+	}
+	for _, fn := range fields {
+		if _, isId := val[fn].(*ast.Ident); !isId {
+			return
+		}
+	}
+	for _, d := range f.Decls {
+		md, ok := d.(*ast.FuncDecl)
+		if !ok || md.Recv == nil || md.Name.Name != sel.Sel.Name || recvTypeName(md) != tname || md.Body == nil || len(md.Body.List) != 1 || len(md.Recv.List[0].Names) != 1 {
+			continue
+		}
+		mr, ok := md.Body.List[0].(*ast.ReturnStmt)
+		if !ok || len(mr.Results) != 1 {
+			return
+		}
+		// a private copy of the method's result expression and type (receiver type parameters may be named differently:
+		// only positional agreement with the literal's type arguments is accepted)
+		rparams := []string{}
+		rt := md.Recv.List[0].Type
+		if s, ok := rt.(*ast.StarExpr); ok {
+			rt = s.X
+		}
+		if il, ok := rt.(*ast.IndexListExpr); ok {
+			for _, ix := range il.Indices {
+				rparams = append(rparams, src(ix))
+			}
+		} else if ie, ok := rt.(*ast.IndexExpr); ok {
+			rparams = append(rparams, src(ie.Index))
+		}
+		targs := []string{}
+		if il, ok := cl.Type.(*ast.IndexListExpr); ok {
+			for _, ix := range il.Indices {
+				targs = append(targs, src(ix))
+			}
+		} else if ie, ok := cl.Type.(*ast.IndexExpr); ok {
+			targs = append(targs, src(ie.Index))
+		}
+		if len(targs) != len(rparams) {
+			return
+		}
+		tren := map[string]string{}
+		for i := range targs {
+			tren[rparams[i]] = targs[i]
+		}
+		lit, err := parser.ParseExprFrom(fset, md.Name.Name+" (method)", "func"+printNode(md.Type)[4:]+" { return "+printNode(mr.Results[0])+" }", 0)
+		if err != nil {
+			return
+		}
+		recv := md.Recv.List[0].Names[0].Name
+		bad := false
+		mapExprs(lit.(*ast.FuncLit).Body, func(e ast.Expr) ast.Expr {
+			if s2, ok := e.(*ast.SelectorExpr); ok {
+				if i, ok := s2.X.(*ast.Ident); ok && i.Name == recv {
+					if v, ok := val[s2.Sel.Name]; ok {
+						return ast.NewIdent(v.(*ast.Ident).Name)
+					}
+					bad = true
+				}
+			}
+			return e
+		})
+		ast.Inspect(lit, func(n ast.Node) bool {
+			if i, ok := n.(*ast.Ident); ok {
+				if i.Name == recv {
+					bad = true
+				}
+				if to, ok := tren[i.Name]; ok {
+					i.Name = to
+				}
+			}
+			return true
+		})
+		if bad {
+			return
+		}
+		r.Results[0] = lit
+		return
+	}
 }
